@@ -33,8 +33,9 @@ def const_names(ctx) -> Dict[str, str]:
     cm = ctx.idx.module('pydbml.constants')
     out = {}
     for st in cm.tree.body:
-        if isinstance(st, ast.Assign) and isinstance(st.value, ast.Constant) and isinstance(st.targets[0], ast.Name):
-            out[st.targets[0].id] = st.value.value
+        if isinstance(st, ast.Assign) and isinstance(st.value, ast.Constant) and isinstance(st.targets[0], ast.Name) and isinstance(st.value.value, str) \
+                and st.value.value and set(st.value.value) <= set('<>-'):
+            out[st.targets[0].id] = st.value.value          # the relation kinds are the constants spelled with the operator characters; other constants may live here too
     return out
 
 
